@@ -214,7 +214,7 @@ func c06Discard(c *Ctx) {
 	const rule = "C06.discard"
 	// pathbadger: root record = rootNodeKeyFmt(version, hash), reached through the root iterator's item key
 	if fn := c.needFn(rule, "storage/mkvs/db/pathbadger.(*badgerNodeDB).Finalize"); fn != nil {
-		notFin := HeldEdges(fn, `^make\(map\[storage/mkvs/db/api\.TypedHash\]struct\{\}\)\[load\(alloc:\*storage/mkvs/db/api\.TypedHash\)\]#1 == false$`)
+		notFin := HeldEdges(fn, `^!make\(map\[storage/mkvs/db/api\.TypedHash\]struct\{\}\)\[load\(alloc:\*storage/mkvs/db/api\.TypedHash\)\]#1$`)
 		// the iterator over the version's roots: the one whose item key is decoded with rootNodeKeyFmt
 		var rootIt ssa.Value
 		for _, call := range findCalls(fn, "common/keyformat.(*KeyFormat).Decode") {
@@ -254,7 +254,7 @@ func c06Discard(c *Ctx) {
 				nexts = append(nexts, call)
 			}
 		}
-		ok := rootIt != nil && len(notFin) > 0 && len(collect) > 0 && len(nexts) > 0 && Reach(fn, nil, notFin, anyOf(nexts), NewCut().AddInstr(collect...)) == nil
+		ok := rootIt != nil && len(notFin) > 0 && len(collect) > 0 && len(nexts) > 0 && Reach(fn, nil, notFin, anyOf(nexts), NewCut().AddInstr(collect...).AddEdges(HeldEdges(fn, `^make\(map\[storage/mkvs/db/api\.TypedHash\]struct\{\}\)\[load\(alloc:\*storage/mkvs/db/api\.TypedHash\)\]#1$`)...)) == nil
 		c.Check(ok, rule, fname(fn)+":non-finalized root⇒root record queued for deletion", c.P.Pos(fn.Pos()), "every root of the version that is not finalized has its root node key queued for deletion before the next root is examined", "a candidate root that is not finalized keeps its root node record: it is still reported as existing, and its path-based child pointers resolve to the finalized root's nodes")
 		// the queue is deleted
 		deleted := false
